@@ -2082,6 +2082,13 @@ class SeqList(PyObj):
             return SeqList(ctx, self.n, self.item, self.tail + list(other))
         return NotImplemented
 
+    def setitem_(self, ctx, k, v):
+        # element assignment: recorded (the contract inspects `sets`); reads of other positions are unaffected
+        ctx.oblige("safe", "list_index_in_range.L%d" % ctx.cur_line, And(k >= 0, k < self.len_(ctx)))
+        if not hasattr(self, 'sets'):
+            self.sets = []
+        self.sets.append((k, v))
+
     def max_(self, ctx, largest=True):
         """max / min of the list: a fresh value bounded by every element and equal to one of them"""
         sample = self.tail[0] if self.tail else self.item(0)
@@ -2160,6 +2167,10 @@ class SymList(PyObj):
 
     def len_(self, ctx):
         return self.length
+
+    def setitem_(self, ctx, k, v):
+        ctx.oblige("safe", "list_index_in_range.L%d" % ctx.cur_line, And(k >= 0, k < self.length))
+        self.writes.append((k, v))
 
     def fingerprint_(self):
         return ('symlist', len(self.writes)), []
@@ -2619,6 +2630,8 @@ def b_id(ctx, x):
 
 
 def b_map(ctx, f, *xs):
+    if len(xs) == 1 and isinstance(xs[0], PyObj) and hasattr(xs[0], 'map_obj_'):
+        return xs[0].map_obj_(ctx, f)
     if len(xs) == 1 and isinstance(xs[0], SeqList) and not xs[0].tail:
         src = xs[0]
         return SeqList(ctx, src.n, lambda k: ctx.interp.call(f, [src.at(k)], {}))
